@@ -299,7 +299,7 @@ def replay(payload):
 
 def run(tier, seed):
     res = Result("C05")
-    res.functions = ["xeofs.cross.base_model_cross_set:BaseModelCrossSet public methods (composition of preprocessor/PCA/whitener per field)", "xeofs.preprocessing.preprocessor:Preprocessor._fit_algorithm/transform/inverse_transform_scores/inverse_transform_scores_unseen",
+    res.functions = ["xeofs.cross.cpcca_rotator:CPCCARotator._fit_algorithm/_sort_by_variance/transform/_compute_rot_mat_inv_trans (+ inherited CPCCA._inverse_transform_algorithm)", "xeofs.cross.base_model_cross_set:BaseModelCrossSet public methods (composition of preprocessor/PCA/whitener per field)", "xeofs.preprocessing.preprocessor:Preprocessor._fit_algorithm/transform/inverse_transform_scores/inverse_transform_scores_unseen",
                      "xeofs.preprocessing.list_processor:GenericListTransformer.*", "xeofs.preprocessing.scaler:Scaler.fit/transform",
                      "xeofs.preprocessing.dimension_renamer:DimensionRenamer.*", "xeofs.preprocessing.multi_index_converter:MultiIndexConverter.*",
                      "xeofs.preprocessing.stacker:Stacker.fit/transform/_stack/_unstack_to_dataarray/_reorder_dims", "xeofs.preprocessing.sanitizer:Sanitizer.*",
@@ -314,6 +314,8 @@ def run(tier, seed):
     deductive(res, agg)
     from vf.contracts import crosschain
     crosschain.obligations(agg, ("transform", "predict"))      # cross-set public methods: every field through its own chain, in order
+    from vf.contracts import crossrot
+    crossrot.obligations(res, agg, ("C05",))      # the real CPCCARotator traced against its callees' contracts
     agg.flush()
     run_bounded(res, tier, seed)
     return res
